@@ -111,7 +111,8 @@ CLAUSES = {
                       raises={'ValueError': ('iff', '%s < 0 or ival(n) < 0' % V0)}),
     'is_odd': _query({}, 'bool', 'result == (%s %% 2 == 1)' % V),
     'is_even': _query({}, 'bool', 'result == (%s %% 2 == 0)' % V),
-    'size_in_bits': _query({}, 'int', 'spec.integer.is_bit_size(%s, result)' % V, raises={'ValueError': ('iff', '%s < 0' % V0)}),
+    'size_in_bits': _query({}, 'int', 'spec.integer.is_bit_size(%s, result)' % V, raises={'ValueError': ('iff', '%s < 0' % V0)},
+                           extra={'bitlen': 'result == (1 if %s == 0 else bitlen(%s))' % (V, V)}),
     'size_in_bytes': _query({}, 'int', 'spec.integer.is_byte_size(%s, result)' % V, raises={'ValueError': ('iff', '%s < 0' % V0)}),
     'fail_if_divisible_by': _query({'small_prime': 'T'}, 'type(None)', 'result is None',
                                    raises={'ZeroDivisionError': ('iff', 'ival(small_prime) == 0'),
@@ -209,7 +210,8 @@ BITS = '(%s if %s is not None else %s)' % (EB, EB, MB)
 EXACT = '(%s is not None)' % EB
 NB = '((%s - 1) // 8 + 1)' % BITS             # bytes needed: ceil(bits / 8)
 SB = '(8 - (%s * 8 - %s))' % (NB, BITS)       # significant bits of the first byte, 1..8
-SYS_UNTOUCHED = '(%s is not None) ==> systape().g_pos == old(systape().g_pos)' % RF
+# "all entropy through randfunc": with a caller tape the system RNG is not read (a caller may also pass the system tape itself)
+SYS_UNTOUCHED = '(%s is not systape()) ==> systape().g_pos == old(systape().g_pos)' % TP
 
 
 def random_contracts(reg, cls=IN):
@@ -231,11 +233,15 @@ def random_contracts(reg, cls=IN):
             'reads': '%s.g_pos == %s + %s' % (TP, P0, NB),
             'system_untouched': SYS_UNTOUCHED,
             # the value: first byte masked to the significant bits (top bit forced for exact_bits), the rest as read, big-endian
-            'value': 'ival(result) == spec.integer.random_value(nth(tape(%s, %s, 1), 0), %s, %s, %s)' % (TP, P0, rest, SB, EXACT),
+            'value': 'ival(result) == spec.integer.candidate(%s.g_id, %s, %s, %s)' % (TP, P0, BITS, EXACT),
             'range': '0 <= ival(result) and ival(result) < pow2(%s)' % BITS,
             'exact': '%s ==> pow2(%s - 1) <= ival(result)' % (EXACT, BITS),
             'type': 'type(result) is cls'},
         lemmas={'exit': {'sbits': '1 <= %s and %s <= 8' % (SB, SB),
+                         # proof step on the local `msb` (assert_at style: a renamed local makes it untranslatable = undecided)
+                         'top': 'msb == %s' % top,
+                         'cons': 'be_cat(bytes([msb]), %s)' % rest,
+                         'val0': 'ival(result) == msb * pow2(8 * (%s - 1)) + be(%s)' % (NB, rest),
                          'val': 'ival(result) == %s * pow2(8 * (%s - 1)) + be(%s)' % (top, NB, rest),
                          'lt': 'be_lt(%s)' % rest,
                          'radix': 'lemma("integer.radix_lt", %s, be(%s), pow2(8 * (%s - 1)), pow2(%s))' % (top, rest, NB, SB),
@@ -243,7 +249,47 @@ def random_contracts(reg, cls=IN):
                          'bits': 'pow2_add(%s, 8 * (%s - 1))' % (SB, NB),
                          'bits_lo': 'pow2_add(%s - 1, 8 * (%s - 1))' % (SB, NB)}},
         modifies=['kwargs', TP + '.g_pos'], result='obj:' + cls,
-        options={'enum_shift': 8, 'pow2_consts': True, 'int_bytes': True, 'be_unfold': True})))
+        options={'enum_shift': 8, 'int_bytes': True})))
+    # ---- random_range: rejection sampling on the normalised range [0, max - min]
+    LO = 'kwarg("min_inclusive")'
+    MI, ME = 'kwarg("max_inclusive")', 'kwarg("max_exclusive")'
+    HI = '(%s if %s is not None else %s - 1)' % (MI, MI, ME)
+    RBITS = '(1 if %s - %s == 0 else bitlen(%s - %s))' % (HI, LO, HI, LO)     # size_in_bits(max - min)
+    RNB = '((%s - 1) // 8 + 1)' % RBITS
+    cand = 'spec.integer.candidate({T}.g_id, {T}.g_pos - {N}, {B}, False)'
+    LNB = '((bits_needed - 1) // 8 + 1)'                                       # the same quantity over the loop's locals
+    out.append(reg.add(Contract(
+        IB + '.random_range',
+        params={'cls': class_value(cls),
+                'kwargs': [kw(min_inclusive='int', max_inclusive='int', randfunc=TAPE_T),
+                           kw(min_inclusive='int', max_exclusive='int', randfunc=TAPE_T),
+                           kw(min_inclusive='int', max_inclusive='int'),
+                           kw(min_inclusive='int', max_inclusive='int', max_exclusive='int', randfunc=TAPE_T),
+                           kw(min_inclusive='int', randfunc=TAPE_T), kw(max_inclusive='int', randfunc=TAPE_T),
+                           kw(min_inclusive='int', max_inclusive='int', modulus='int')]},
+        requires=['valid(%s)' % RF],
+        # keyword refusals; an empty interval (max < min) is refused too (no value exists)
+        raises={'ValueError': ('iff', 'not kwargs_only("min_inclusive", "max_inclusive", "max_exclusive", "randfunc") or '
+                                      '(%s is not None and %s is not None) or (%s is None and %s is None) or %s is None or %s < %s'
+                                      % (MI, ME, MI, ME, LO, HI, LO))},
+        ensures={
+            'range': '%s <= ival(result) and ival(result) <= %s' % (LO, HI),
+            # the value returned is min + the LAST candidate drawn, unmodified (no modular reduction); the candidate has
+            # exactly size_in_bits(max - min) bits and is read from the caller's tape
+            'candidate': 'ival(result) - %s == %s' % (LO, cand.format(T=TP, N=RNB, B=RBITS)),
+            'reads': '%s.g_pos >= %s + %s' % (TP, P0, RNB),
+            'system_untouched': SYS_UNTOUCHED,
+            'type': 'type(result) is cls'},
+        loops={0: {'peel': 1, 'havoc': ['randfunc.g_pos'], 'types': {'norm_candidate': 'obj:' + cls},
+                   'invariant': ['type(norm_candidate) is cls',
+                                 'randfunc.g_pos >= %s + %s' % (P0, LNB),
+                                 'ival(norm_candidate) == %s' % cand.format(T='randfunc', N=LNB, B='bits_needed'),
+                                 '(randfunc is not systape()) ==> systape().g_pos == old(systape().g_pos)']}},
+        # proof steps over locals (assert_at style)
+        lemmas={'exit': {'bits': 'bits_needed == %s' % RBITS,
+                         'cand': 'ival(norm_candidate) == %s' % cand.format(T=TP, N=RNB, B=RBITS)}},
+        opaque=['spec.integer.candidate'],
+        modifies=['kwargs', TP + '.g_pos'], result='obj:' + cls)))
     return out
 
 
@@ -262,8 +308,27 @@ def registry(self_class=IN):
 SIMPLE = [n for n in CLAUSES if n not in ('lcm',)] + ['__init__', 'from_bytes', '_mult_modulo_bytes']
 
 
+def registry_alt(target, i):
+    """the registry with the **kwargs alternatives of `target` reduced to the i-th (one worker per alternative)"""
+    reg = registry()
+    c = reg.contracts[target]
+    c.params = dict(c.params)
+    c.params['kwargs'] = [c.params['kwargs'][i]]
+    return reg
+
+
+N_RANDOM_ALTS = 8
+
+
 def units(prop, tier):
     from vf.pyunit import pyvc_unit
+    import functools
+    if prop == 'C18':
+        out = [pyvc_unit(prop, 'int.base.random.kw%d' % i, functools.partial(registry_alt, IB + '.random', i), [IB + '.random'])
+               for i in range(N_RANDOM_ALTS)]
+        out.append(pyvc_unit(prop, 'int.base.random_range', registry, [IB + '.random_range']))
+        out += lemma_units(prop, 'int.base.', registry)
+        return out
     if prop != 'C14':
         return []
     out = []
